@@ -1,7 +1,23 @@
 (* C15 — polyphase output obeys the input genotypes and forms contiguous blocks.
    Only the property theorems (each closed by `exact`), their assumption printouts and non-vacuity examples.
    Conventions (model/Polyphase.v): haplotype matrices column-wise, genotypes as allele vectors, -1 = undetermined
-   allele; the clustering / threading / likelihood / ILP / threshold parts are envelopes. *)
+   allele.
+
+   What is a THEOREM and what is an ENVELOPE.  Since /repo e62f700 force_genotypes takes a candidate configuration in
+   every case (model: fallback = AlwaysCandidate), and the theorems below about that rule are FULL statements about the
+   code as it is: they quantify over EVERY outcome of the parts that are not modelled deterministically -
+     * read clustering and the threading DP (arbitrary threaded columns `init`),
+     * the float likelihood arg-max in force_genotypes (any permutation of alleles_to_insert),
+     * link likelihoods and their arg-max / the ILP solution in get_optimal_assignments (any orders of the breakpoints'
+       haplotypes; any list of permutations),
+     * the float threshold tests of compute_cut_positions for -B 2..4 (any decision function dec),
+     * find_breakpoints / the breakpoint merge (any sorted breakpoint list) and find_subinstances (any sub-instances of
+       the stated shape).
+   Nothing in the statements is partial any more; what stays outside the proofs is only WHICH element of each envelope
+   the implementation picks.  That the implementation's results lie inside the envelopes (and that the stated shapes
+   hold) is what the correspondence run checks on every generated and traced call.
+   The KeepGiven variants describe the code before e62f700 and are kept as `_refuted` witnesses of that defect
+   (finding force:likelihood-underflow). *)
 From Coq Require Import ZArith List Bool Arith Permutation.
 From WH.Model Require Import Polyphase.
 From WH.Proofs Require Import PolyphaseProofs PolyphaseProofs2 PolyphaseProofs3 PolyphaseProofs4.
@@ -10,49 +26,40 @@ Open Scope Z_scope.
 
 (* --- force_genotypes ----------------------------------------------------------------------------- *)
 
-(* The full statement for the code AS IT IS (best_config starts as the given configuration and is only replaced on a
-   strictly larger likelihood): every member of the envelope obeys the genotype.  It is refuted below. *)
-Definition C15_force_genotypes_conforms_full_statement : Prop :=
-  forall g cfg o, length g = length cfg -> In o (force_pos_envelope KeepGiven g cfg) ->
-  exists out, o = Some out /\ length out = length cfg /\ (In undet out \/ Permutation out g).
-
-(* PARTIAL: proved for the envelope without the fall-back to the given configuration, i.e. for the code as it is at
-   every position where at least one candidate configuration has a float likelihood > -inf (and for the repaired
-   rule unconditionally): for a genotype with as many alleles as there are haplotypes, whichever permutation of
-   alleles_to_insert the arg-max picks, the result is not a python error, keeps the number of haplotypes, and has an
-   undetermined allele (position skipped) or exactly the genotype's alleles with their multiplicities.
-   Missing for the full statement: the all-candidates-have-likelihood-0 case, in which the current code keeps the
-   non-conforming configuration (C15_force_genotypes_conforms_refuted; observed on the implementation). *)
-Theorem C15_force_genotypes_conforms_partial : forall g cfg o, length g = length cfg ->
+(* For a genotype with as many alleles as there are haplotypes, whichever permutation of alleles_to_insert the arg-max
+   picks, the result is not a python error, keeps the number of haplotypes, and has an undetermined allele (position
+   skipped) or exactly the genotype's alleles with their multiplicities. *)
+Theorem C15_force_genotypes_conforms : forall g cfg o, length g = length cfg ->
   In o (force_pos_envelope AlwaysCandidate g cfg) ->
   exists out, o = Some out /\ length out = length cfg /\ (In undet out \/ Permutation out g).
 Proof. exact force_pos_conforms. Qed.
-Print Assumptions C15_force_genotypes_conforms_partial.
+Print Assumptions C15_force_genotypes_conforms.
 
-(* the code as it is: a result that does not obey the genotype is the unchanged given configuration at a position
-   that needed forcing *)
-Theorem C15_force_genotypes_current_code : forall g cfg o, length g = length cfg ->
+(* the code before e62f700 (best_config started as the given configuration and was replaced only on a strictly larger
+   likelihood): a result that does not obey the genotype is the unchanged given configuration at a position that
+   needed forcing *)
+Theorem C15_force_genotypes_before_fix : forall g cfg o, length g = length cfg ->
   In o (force_pos_envelope KeepGiven g cfg) ->
   exists out, o = Some out /\ length out = length cfg /\
     (In undet out \/ Permutation out g \/ (out = cfg /\ needs_forcing g cfg = true)).
 Proof. exact force_pos_keepgiven. Qed.
-Print Assumptions C15_force_genotypes_current_code.
+Print Assumptions C15_force_genotypes_before_fix.
 
-(* REFUTED for the code as it is: genotype 0/0/1/1, threaded alleles 0,0,0,0; when every candidate's likelihood
-   underflows to 0 (one cluster of depth >= 1075 showing only allele 0) the result is 0,0,0,0.
-   Replayed on the implementation: harness/props/C15.py corpus case, signature force:likelihood-underflow. *)
-Theorem C15_force_genotypes_conforms_refuted : exists g cfg out,
+(* REFUTED for the code before e62f700: genotype 0/0/1/1, threaded alleles 0,0,0,0; when every candidate's likelihood
+   underflows to 0 (one cluster of depth >= 1075 showing only allele 0) the result was 0,0,0,0.
+   The same input is replayed on the implementation in every run (harness/props/C15.py corpus cases). *)
+Theorem C15_force_genotypes_before_fix_refuted : exists g cfg out,
   length g = length cfg /\ In (Some out) (force_pos_envelope KeepGiven g cfg) /\ conforms g out = false.
 Proof. exact force_pos_keepgiven_refuted. Qed.
-Print Assumptions C15_force_genotypes_conforms_refuted.
+Print Assumptions C15_force_genotypes_before_fix_refuted.
 
 (* whole matrix, in the form the harness evaluates (L2 envelope membership implies the L1 predicate) *)
-Theorem C15_force_genotypes_matrix_partial : forall gs cols outs,
+Theorem C15_force_genotypes_matrix : forall gs cols outs,
   Forall2 (fun g c => length g = length c) gs cols ->
   in_force_envelope AlwaysCandidate gs cols outs = true ->
   all_conform gs outs = true /\ Forall2 (fun c o => length o = length c) cols outs.
 Proof. exact force_genotypes_conforms. Qed.
-Print Assumptions C15_force_genotypes_matrix_partial.
+Print Assumptions C15_force_genotypes_matrix.
 
 Example C15_force_example :
   needs_forcing [0; 1; 2] [2; 1; 1] = true /\
@@ -110,25 +117,21 @@ Example C15_integrate_example :
   integrate [[0; 1; 2]; [0; 1; 2]; [3; 4; 5]] subs = Some [[0; 1; 2]; [2; 1; 0]; [5; 4; 3]].
 Proof. vm_compute. repeat split; reflexivity. Qed.
 
-(* the whole block pipeline (recursion over sub-instances included), PARTIAL in the same sense as
-   C15_force_genotypes_conforms_partial: for arbitrary clustering / threading / likelihood / ILP outcomes, every
-   matrix in the envelope has k alleles per position and, per position, an undetermined allele or exactly the
-   genotype's alleles with multiplicities *)
-Theorem C15_pipeline_conforms_partial : forall d k gs cols,
+(* the whole block pipeline (recursion over sub-instances included): for arbitrary clustering / threading /
+   likelihood / ILP outcomes, every matrix in the envelope has k alleles per position and, per position, an
+   undetermined allele or exactly the genotype's alleles with multiplicities *)
+Theorem C15_pipeline_conforms : forall d k gs cols,
   SolvesN AlwaysCandidate d k gs cols -> Forall (fun g => length g = k) gs ->
   Forall2 (fun g c => length c = k /\ (In undet c \/ Permutation c g)) gs cols.
 Proof. exact pipeline_conforms_b. Qed.
-Print Assumptions C15_pipeline_conforms_partial.
+Print Assumptions C15_pipeline_conforms.
 
-Definition C15_pipeline_conforms_full_statement : Prop := forall d k gs cols,
-  SolvesN KeepGiven d k gs cols -> Forall (fun g => length g = k) gs ->
-  Forall2 (fun g c => length c = k /\ (In undet c \/ Permutation c g)) gs cols.
-
-Theorem C15_pipeline_conforms_refuted : exists d k gs cols,
+(* the pipeline with the rule before e62f700: a matrix in its envelope contradicts its genotypes *)
+Theorem C15_pipeline_before_fix_refuted : exists d k gs cols,
   SolvesN KeepGiven d k gs cols /\ Forall (fun g => length g = k) gs /\
   ~ Forall2 (fun g c => length c = k /\ (In undet c \/ Permutation c g)) gs cols.
 Proof. exact pipeline_keepgiven_refuted_b. Qed.
-Print Assumptions C15_pipeline_conforms_refuted.
+Print Assumptions C15_pipeline_before_fix_refuted.
 
 (* --- blocks -------------------------------------------------------------------------------------- *)
 
@@ -222,14 +225,13 @@ Example C15_sample_example :
            ([0; 1; 1], false, None); ([1; 1; 0], true, Some 31); ([0; 0; 2], true, Some 31)], true).
 Proof. vm_compute. reflexivity. Qed.
 
-(* Everything composed for one processed sample, PARTIAL in the sense of C15_force_genotypes_conforms_partial
-   (the envelope without the keep-the-given-configuration fall-back): whatever clustering, threading, likelihoods,
+(* Everything composed for one processed sample: whatever clustering, threading, likelihoods,
    ILP and threshold tests do - any matrix cols in the pipeline envelope for the genotypes gs of the read-covered
    heterozygous variants acc, any sorted breakpoint list starting with the zero-confidence breakpoint at 0 (what
    aggregate_results returns, C15_aggregate_sorted_from_zero) with positions inside acc, any sensitivity and any
    outcome dec of the threshold tests - the written calls of the sample satisfy the property's per-sample predicate:
    genotype clause for every call and phase sets = disjoint intervals of acc named by their first variant. *)
-Theorem C15_polyphase_sample_partial : forall d k acc gs cols rest sens dec (recs : list inrec),
+Theorem C15_polyphase_sample : forall d k acc gs cols rest sens dec (recs : list inrec),
   SolvesN AlwaysCandidate d k gs cols -> Forall (fun g => length g = k) gs ->
   strictly_incZ acc = true -> length acc = length gs ->
   nondecN (map fst ((0%nat, true) :: rest)) = true ->
@@ -239,7 +241,7 @@ Theorem C15_polyphase_sample_partial : forall d k acc gs cols rest sens dec (rec
   exists outs, sample_out acc cols (compute_cuts sens dec ((0%nat, true) :: rest)) recs = Some outs /\
                sample_okb (map (fun a => a + 1) acc) (obs_of_model recs outs) = true.
 Proof. exact polyphase_sample_ok. Qed.
-Print Assumptions C15_polyphase_sample_partial.
+Print Assumptions C15_polyphase_sample.
 
 (* non-vacuity of the envelope hypothesis: a two-block instance (one singleton block, one general block with a forced
    position and a non-identity assignment) is in the envelope *)
